@@ -133,3 +133,15 @@ Crash.vos Crash.vok Crash.required_vos: Crash.v
 CrashFacts.vo CrashFacts.glob CrashFacts.v.beautified CrashFacts.required_vo: CrashFacts.v Crash.vo
 CrashFacts.vio: CrashFacts.v Crash.vio
 CrashFacts.vos CrashFacts.vok CrashFacts.required_vos: CrashFacts.v Crash.vos
+IteratorIncl.vo IteratorIncl.glob IteratorIncl.v.beautified IteratorIncl.required_vo: IteratorIncl.v Iterator.vo
+IteratorIncl.vio: IteratorIncl.v Iterator.vio
+IteratorIncl.vos IteratorIncl.vok IteratorIncl.required_vos: IteratorIncl.v Iterator.vos
+IteratorInclFacts.vo IteratorInclFacts.glob IteratorInclFacts.v.beautified IteratorInclFacts.required_vo: IteratorInclFacts.v Bytes.vo BytesFacts.vo Segment.vo SegmentFacts.vo Stack.vo StackFacts.vo Iterator.vo IteratorFacts.vo IteratorIncl.vo
+IteratorInclFacts.vio: IteratorInclFacts.v Bytes.vio BytesFacts.vio Segment.vio SegmentFacts.vio Stack.vio StackFacts.vio Iterator.vio IteratorFacts.vio IteratorIncl.vio
+IteratorInclFacts.vos IteratorInclFacts.vok IteratorInclFacts.required_vos: IteratorInclFacts.v Bytes.vos BytesFacts.vos Segment.vos SegmentFacts.vos Stack.vos StackFacts.vos Iterator.vos IteratorFacts.vos IteratorIncl.vos
+TreeInv.vo TreeInv.glob TreeInv.v.beautified TreeInv.required_vo: TreeInv.v Bytes.vo Segment.vo Stack.vo Collection.vo Store.vo Tree.vo TreeColl.vo
+TreeInv.vio: TreeInv.v Bytes.vio Segment.vio Stack.vio Collection.vio Store.vio Tree.vio TreeColl.vio
+TreeInv.vos TreeInv.vok TreeInv.required_vos: TreeInv.v Bytes.vos Segment.vos Stack.vos Collection.vos Store.vos Tree.vos TreeColl.vos
+TreeInvFacts.vo TreeInvFacts.glob TreeInvFacts.v.beautified TreeInvFacts.required_vo: TreeInvFacts.v Bytes.vo BytesFacts.vo Segment.vo SegmentFacts.vo Stack.vo StackFacts.vo Collection.vo CollectionFacts.vo Store.vo StoreFacts.vo Tree.vo TreeColl.vo TreeFacts.vo TreeInv.vo
+TreeInvFacts.vio: TreeInvFacts.v Bytes.vio BytesFacts.vio Segment.vio SegmentFacts.vio Stack.vio StackFacts.vio Collection.vio CollectionFacts.vio Store.vio StoreFacts.vio Tree.vio TreeColl.vio TreeFacts.vio TreeInv.vio
+TreeInvFacts.vos TreeInvFacts.vok TreeInvFacts.required_vos: TreeInvFacts.v Bytes.vos BytesFacts.vos Segment.vos SegmentFacts.vos Stack.vos StackFacts.vos Collection.vos CollectionFacts.vos Store.vos StoreFacts.vos Tree.vos TreeColl.vos TreeFacts.vos TreeInv.vos
